@@ -37,6 +37,13 @@ structure Inv (q : Quirks) (st : St σ) : Prop where
   errFlag : st.err = true → st.deadHit = true ∧ q.deadEndpointRaises = true
   epochUsed : ∀ o ∈ st.h.epoch, o ∈ st.h.used
   instUsed : ∀ kw ∈ st.g.instIdx, kw.2.obj ∈ st.h.used
+  everNodes : ∀ w ∈ st.g.nodes, w.idx ∈ st.g.ever
+  everRel : ∀ r ∈ st.g.relIdx, r.2.1 ∈ st.g.ever ∧ r.2.2 ∈ st.g.ever
+  /-- as long as no node index was handed out twice, an index entry without an edge behind it mentions an index that
+  no node of the graph has any more -/
+  staleOut : st.g.reused = false → ∀ r ∈ st.g.relIdx, (∃ e ∈ st.g.edges, r = (e.fld, e.src.idx, e.tgt.idx)) ∨
+    (∀ w ∈ st.g.nodes, w.idx ≠ r.2.1) ∨ (∀ w ∈ st.g.nodes, w.idx ≠ r.2.2)
+  noHit : st.g.reused = false → st.staleHit = false
 
 theorem isLive_iff (h : Heap) (o : Obj) : h.isLive o = true ↔ ∃ x ∈ h.live, x.obj = o := by
   simp [Heap.isLive, List.any_eq_true]
@@ -55,7 +62,7 @@ theorem C13_inv_init (q : Quirks) (a : Alloc σ) : Inv q (St.init a) := by
 theorem Inv.heap_irrelevant {q : Quirks} {st : St σ} (hI : Inv q st) (h' : Heap)
     (h1 : h'.live = st.h.live) (h2 : h'.used = st.h.used) (h3 : h'.epoch = st.h.epoch) :
     Inv q { st with h := h' } := by
-  obtain ⟨a1, a2, a3, a4, a5, a6, a7, a8, a9, a10, a11, a12, a13, a14, a15, a16, a17, a18, a19, a20, a21⟩ := hI
+  obtain ⟨a1, a2, a3, a4, a5, a6, a7, a8, a9, a10, a11, a12, a13, a14, a15, a16, a17, a18, a19, a20, a21, a22, a23, a24, a25⟩ := hI
   constructor <;> simp only [h1, h2, h3] <;> assumption
 
 /-- instances die (any set of them) -/
@@ -89,6 +96,10 @@ theorem Inv.kill {q : Quirks} {st : St σ} (hI : Inv q st) (D : List Obj) :
   · exact hI.errFlag
   · exact hI.epochUsed
   · exact hI.instUsed
+  · exact hI.everNodes
+  · exact hI.everRel
+  · exact hI.staleOut
+  · exact hI.noHit
 
 theorem Inv.collect {q q' : Quirks} {st : St σ} (hI : Inv q st) :
     Inv q { st with h := st.h.collect q' } := hI.kill _
@@ -176,6 +187,33 @@ theorem Inv.removeNode {q : Quirks} {a : Alloc σ} {st : St σ} (hI : Inv q st) 
   · simp only [SG.removeNode]; split
     · exact hI.instUsed
     · intro kw hkw; exact hI.instUsed kw (List.mem_filter.1 hkw).1
+  · intro w1 h1; exact hI.everNodes w1 ((hmem _).1 h1).2
+  · have hsub : ∀ r, r ∈ (SG.removeNode q a st.g w).relIdx → r ∈ st.g.relIdx := by
+      intro r hr; simp only [SG.removeNode] at hr; split at hr
+      · exact hr
+      · exact (List.mem_filter.1 hr).1
+    intro r hr; exact hI.everRel r (hsub r hr)
+  · have hsub : ∀ r, r ∈ (SG.removeNode q a st.g w).relIdx → r ∈ st.g.relIdx := by
+      intro r hr; simp only [SG.removeNode] at hr; split at hr
+      · exact hr
+      · exact (List.mem_filter.1 hr).1
+    intro hre r hr
+    have hother : ∀ w' ∈ st.g.nodes.erase w, w'.idx ≠ w.idx := by
+      intro w' hw' he
+      have := (hmem _).1 hw'
+      exact this.1 (hI.idxInj w' this.2 w hw he)
+    rcases hI.staleOut hre r (hsub r hr) with ⟨e, he, rfl⟩ | h | h
+    · by_cases hinc : e.src.idx = w.idx ∨ e.tgt.idx = w.idx
+      · rcases hinc with hc | hc
+        · right; left; intro w' hw'; simpa [hc] using hother w' hw'
+        · right; right; intro w' hw'; simpa [hc] using hother w' hw'
+      · left
+        refine ⟨e, ?_, rfl⟩
+        simp only [SG.removeNode, List.mem_filter, Bool.and_eq_true, bne_iff_ne, ne_eq]
+        exact ⟨he, fun hc => hinc (Or.inl hc), fun hc => hinc (Or.inr hc)⟩
+    · right; left; intro w' hw'; exact h w' ((hmem _).1 hw').2
+    · right; right; intro w' hw'; exact h w' ((hmem _).1 hw').2
+  · exact hI.noHit
 
 theorem mem_insertByIdx (w x : W) (l : List W) : x ∈ insertByIdx w l ↔ x = w ∨ x ∈ l := by
   induction l with
@@ -376,6 +414,33 @@ theorem Inv.addNode {q : Quirks} {a : Alloc σ} (ha : a.Valid) {st : St σ} (hI 
     rintro kw (⟨hkw, _⟩ | rfl)
     · exact (hused _).2 (Or.inl (hI.instUsed kw hkw))
     · exact (hused _).2 (Or.inr rfl)
+  · simp only [SG.addNode, List.mem_append, List.mem_singleton]
+    rintro w (hw | rfl)
+    · exact Or.inl (hI.everNodes w hw)
+    · exact Or.inr rfl
+  · simp only [SG.addNode, List.mem_append, List.mem_singleton]
+    intro r hr
+    exact ⟨Or.inl (hI.everRel r hr).1, Or.inl (hI.everRel r hr).2⟩
+  · simp only [SG.addNode, Bool.or_eq_false_iff, List.mem_append, List.mem_singleton]
+    rintro ⟨hre, hni⟩ r hr
+    have hni' : (a.pick st.g.al (st.g.nodes.map (·.idx))).1 ∉ st.g.ever := by
+      intro h; rw [← List.contains_iff_mem] at h; rw [h] at hni; cases hni
+    rcases hI.staleOut hre r hr with h | h | h
+    · exact Or.inl h
+    · right; left
+      rintro w (hw | rfl)
+      · exact h w hw
+      · intro he
+        have he' : (a.pick st.g.al (st.g.nodes.map (·.idx))).1 = r.2.1 := he
+        exact hni' (he' ▸ (hI.everRel r hr).1)
+    · right; right
+      rintro w (hw | rfl)
+      · exact h w hw
+      · intro he
+        have he' : (a.pick st.g.al (st.g.nodes.map (·.idx))).1 = r.2.2 := he
+        exact hni' (he' ▸ (hI.everRel r hr).2)
+  · simp only [SG.addNode, Bool.or_eq_false_iff]
+    rintro ⟨hre, _⟩; exact hI.noHit hre
 
 
 theorem mem_register (h : Heap) (o o' : Obj) : o' ∈ (h.register o).epoch ↔ o' ∈ h.epoch ∨ o' = o := by
@@ -460,7 +525,8 @@ theorem Inv.ensure {q : Quirks} {a : Alloc σ} (ha : a.Valid) {st : St σ} (hI :
 /-- the body of `add_relation`: a new edge between two wrappers of the graph -/
 theorem Inv.addEdge {q : Quirks} {st : St σ} (hI : Inv q st) (f : Fld) (ws wt : W) (inf : Bool)
     (hs : ws ∈ st.g.nodes) (ht : wt ∈ st.g.nodes) : Inv q { st with g := SG.addEdge st.g f ws wt inf } := by
-  obtain ⟨a1, a2, a3, a4, a5, a6, a7, a8, a9, a10, a11, a12, a13, a14, a15, a16, a17, a18, a19, a20, a21⟩ := hI
+  obtain ⟨a1, a2, a3, a4, a5, a6, a7, a8, a9, a10, a11, a12, a13, a14, a15, a16, a17, a18, a19, a20, a21,
+    a22, a23, a24, a25⟩ := hI
   constructor <;> try assumption
   · simp only [SG.addEdge, List.mem_append, List.mem_singleton]
     rintro e (he | rfl)
@@ -476,13 +542,42 @@ theorem Inv.addEdge {q : Quirks} {st : St σ} (hI : Inv q st) (f : Fld) (ws wt :
     · obtain ⟨e, he, rfl⟩ := a18 hq r hr
       exact ⟨e, Or.inl he, rfl⟩
     · exact ⟨_, Or.inr rfl, rfl⟩
+  · simp only [SG.addEdge, List.mem_append, List.mem_singleton]
+    rintro r (hr | rfl)
+    · exact a23 r hr
+    · exact ⟨a22 ws hs, a22 wt ht⟩
+  · intro hre
+    simp only [SG.addEdge, List.mem_append, List.mem_singleton]
+    rintro r (hr | rfl)
+    · rcases a24 hre r hr with ⟨e, he, rfl⟩ | h | h
+      · exact Or.inl ⟨e, Or.inl he, rfl⟩
+      · exact Or.inr (Or.inl h)
+      · exact Or.inr (Or.inr h)
+    · exact Or.inl ⟨_, Or.inr rfl, rfl⟩
 
-/-- the ghost flags may change freely as long as `err` implies a recorded dead end under the quirk -/
+/-- the ghost flags may change as long as `err` implies a recorded dead end under the quirk, and a stale hit is only
+recorded once a node index has been handed out twice -/
 theorem Inv.flags {q : Quirks} {st : St σ} (hI : Inv q st) (e s d : Bool)
-    (he : e = true → d = true ∧ q.deadEndpointRaises = true) :
+    (he : e = true → d = true ∧ q.deadEndpointRaises = true) (hs : st.g.reused = false → s = false) :
     Inv q { st with err := e, staleHit := s, deadHit := d } := by
-  obtain ⟨a1, a2, a3, a4, a5, a6, a7, a8, a9, a10, a11, a12, a13, a14, a15, a16, a17, a18, a19, a20, a21⟩ := hI
+  obtain ⟨a1, a2, a3, a4, a5, a6, a7, a8, a9, a10, a11, a12, a13, a14, a15, a16, a17, a18, a19, a20, a21,
+    a22, a23, a24, a25⟩ := hI
   constructor <;> try assumption
+
+/-- without index re-use, `relation_exists` on two nodes of the graph is exact -/
+theorem Inv.exists_exact {q : Quirks} {st : St σ} (hI : Inv q st) (hre : st.g.reused = false) (f : Fld) (ws wt : W)
+    (hs : ws ∈ st.g.nodes) (ht : wt ∈ st.g.nodes) (h : relationExists st.g f ws wt = true) :
+    edgeExists st.g f ws wt = true := by
+  simp only [relationExists, List.contains_iff_mem] at h
+  rcases hI.staleOut hre _ h with ⟨e, he, heq⟩ | hn | hn
+  · simp only [Prod.mk.injEq] at heq
+    have hn := hI.edgeNodes e he
+    have h1 := hI.idxInj ws hs e.src hn.1 heq.2.1
+    have h2 := hI.idxInj wt ht e.tgt hn.2 heq.2.2
+    simp only [edgeExists, List.any_eq_true, Bool.and_eq_true, beq_iff_eq]
+    exact ⟨e, he, ⟨heq.1.symm, h1.symm⟩, h2.symm⟩
+  · exact absurd rfl (hn ws hs)
+  · exact absurd rfl (hn wt ht)
 
 /-- what `add_to_graph` leaves untouched: the nodes, and everything in the heap but the field contents -/
 structure Frame (st st' : St σ) : Prop where
@@ -546,8 +641,8 @@ theorem keeps_deadEnd {q : Quirks} {st0 : St σ} (s : St σ) (f : Fld) (ws wt : 
   unfold deadEnd
   split
   · rename_i hq
-    exact ⟨hk.1.flags _ _ _ (fun _ => ⟨rfl, hq⟩), hk.2.trans ⟨rfl, rfl⟩⟩
-  · exact ⟨hk.1.flags _ _ _ (fun h => ⟨rfl, (hk.1.errFlag h).2⟩), hk.2.trans ⟨rfl, rfl⟩⟩
+    exact ⟨hk.1.flags _ _ _ (fun _ => ⟨rfl, hq⟩) hk.1.noHit, hk.2.trans ⟨rfl, rfl⟩⟩
+  · exact ⟨hk.1.flags _ _ _ (fun h => ⟨rfl, (hk.1.errFlag h).2⟩) hk.1.noHit, hk.2.trans ⟨rfl, rfl⟩⟩
 
 theorem keeps_inferOut {q : Quirks} {S : Schema} {st0 : St σ} {rec} (hrec : RecOK q st0 rec) (s : St σ)
     (f : Fld) (ws wt : W) (hk : Keeps q st0 s) (hs : ws ∈ st0.g.nodes) :
@@ -591,9 +686,12 @@ theorem keeps_record {q : Quirks} {S : Schema} {st : St σ} (hI : Inv q st) (f :
   · exact ⟨h1.heap_irrelevant _ (by simp) (by simp) (by simp), ⟨rfl, rfl⟩⟩
   · exact ⟨h1, ⟨rfl, rfl⟩⟩
 
-theorem keeps_known {q : Quirks} {st : St σ} (hI : Inv q st) (f : Fld) (ws wt : W) :
-    Keeps q st (known st f ws wt) :=
-  ⟨hI.flags _ _ _ hI.errFlag, ⟨rfl, rfl⟩⟩
+theorem keeps_known {q : Quirks} {st : St σ} (hI : Inv q st) (f : Fld) (ws wt : W) (hs : ws ∈ st.g.nodes)
+    (ht : wt ∈ st.g.nodes) (hre : relationExists st.g f ws wt = true) : Keeps q st (known st f ws wt) := by
+  refine ⟨hI.flags _ _ _ hI.errFlag ?_, ⟨rfl, rfl⟩⟩
+  intro hr
+  rw [hI.noHit hr, hI.exists_exact hr f ws wt hs ht hre]
+  rfl
 
 /-- `PropertyDescriptorRelation.add_to_graph` keeps the registry consistent and touches neither the nodes nor the
 set of live instances -/
@@ -605,7 +703,8 @@ theorem Inv.addFact {q : Quirks} (S : Schema) : ∀ (fuel : Nat) (st : St σ) (f
     split
     · exact ⟨hI, Frame.refl _⟩
     split
-    · exact keeps_known hI f ws wt
+    · rename_i hre
+      exact keeps_known hI f ws wt hs ht hre
     have hrec : RecOK q st (fun st f ws wt => SG.addFact q S fuel st f ws wt true) := by
       intro s f' a b hk ha hb
       have := Inv.addFact S fuel s f' a b true hk.1 (hk.2.nodes ▸ ha) (hk.2.nodes ▸ hb)
@@ -631,12 +730,13 @@ theorem Inv.ensure2 {q : Quirks} {a : Alloc σ} (ha : a.Valid) {st : St σ} (hI 
   · simp only [W.toR, e2.2.2.1, e2.2.2.2.1]
 
 theorem Inv.clear {q : Quirks} {a : Alloc σ} {st : St σ} (hI : Inv q st) :
-    Inv q { st with g := SG.empty a, h := { st.h with epoch := [] } } := by
+    Inv q { st with g := { SG.empty a with reused := st.g.reused }, h := { st.h with epoch := [] } } := by
   constructor <;> simp [SG.empty]
   · exact hI.liveUsed
   · exact hI.liveObjInj
   · exact hI.livePidInj
   · intro h; simpa using hI.errFlag h
+  · exact hI.noHit
 
 /-- **C13_inv_step.** every operation of a history keeps the registry consistent — for every valid node-index
 allocator, every `id()` the new instance may get, every quirk setting -/
@@ -674,7 +774,8 @@ theorem C13_inv_step (q : Quirks) (S : Schema) (a : Alloc σ) (ha : a.Valid) (st
     · rename_i xs xt hs ht
       have e := hI.ensure2 ha xs xt (find_some hs).1 (find_some ht).1
       split
-      · exact (keeps_known e.1 _ _ _).1
+      · rename_i hre
+        exact (keeps_known e.1 _ _ _ e.2.1 e.2.2.1 hre).1
       · exact e.1.addEdge _ _ _ _ e.2.1 e.2.2.1
     · exact hI
   | set f s t =>
